@@ -14,7 +14,9 @@ package main
 //	for i := a; i >= b; i-- / for i := a; i < b; i++
 //	return .., continue, break, switch with constant cases (as an if-chain)
 //	identifiers, literals, selectors, calls, indexing, &&, ||, !, comparisons, + - on ints,
-//	struct literals, make(map..), nil
+//	struct literals, make(map..), nil, delete(m, k) on an owned map, `v, ok := x.(T)` (callSubst "assert:<T>"),
+//	interface{} / any as a type the target names (subst "type:interface{}"),
+//	named results (zero-valued mutable locals; bare `return`)
 //	strings.HasPrefix / TrimPrefix / CutPrefix, `+` on strings (GoLite instance),
 //	`return f(..)` handing on all results of a call;
 //	identifiers compared with nil are nil-able without being listed in optVars
@@ -53,6 +55,10 @@ type g2lTarget struct {
 	// part of a function instead of its whole body:
 	closureOf string   // translate the body of the function literal passed to this callee (e.g. "repo.ListSignatures")
 	after     string   // translate the top-level statements AFTER the statement that calls this callee
+	outer     []string // the names this configuration uses for the variables of the ENCLOSING function the part
+	// refers to (parameters first, then locals, in declaration order). The translator finds the actual
+	// ones by position, not by name, and renames them to these - so renaming such a variable in the Go
+	// source changes nothing here. A different NUMBER of such variables is a failure (it lists them).
 	captures  []string // variables of the enclosing function the part reads and writes: they are
 	// parameters of the Lean definition (same names) and are returned, as a tuple, after the results
 	dropArgs   []string // identifiers dropped from every argument list (context.Context values)
@@ -73,6 +79,8 @@ type g2l struct {
 	// only these may be updated in place - anything else may alias memory the caller or another
 	// variable sees, which a value-semantics translation would silently lose
 	drop []string // dropCalls of the target + "<v>." for every local v := <dropped call>(..)
+	named      []string   // named results of the function, in order
+	namedTypes []ast.Expr // their types
 }
 
 var leanReserved = map[string]bool{"end": true, "from": true, "at": true, "open": true, "then": true, "do": true, "fun": true,
@@ -457,6 +465,10 @@ func g2lType(g *g2l, e ast.Expr) string {
 			return "Bool"
 		case "error":
 			return "(Option GoLite.Err)"
+		case "any":
+			if t, ok := g.t.subst["type:interface{}"]; ok {
+				return t
+			}
 		}
 		return g2lIdent(x.Name)
 	case *ast.SelectorExpr:
@@ -470,6 +482,13 @@ func g2lType(g *g2l, e ast.Expr) string {
 		return "(List " + g2lType(g, x.Elt) + ")"
 	case *ast.MapType:
 		return "(GoLite.Map " + g2lType(g, x.Key) + " " + g2lType(g, x.Value) + ")"
+	case *ast.InterfaceType:
+		// interface{}: the dynamic values that occur are a type the target names (subst "type:interface{}")
+		if x.Methods == nil || len(x.Methods.List) == 0 {
+			if t, ok := g.t.subst["type:interface{}"]; ok {
+				return t
+			}
+		}
 	}
 	g.fail(e, "unsupported type %s", exprText(e))
 	return ""
@@ -695,7 +714,7 @@ func (g *g2l) outArg(e ast.Expr) ast.Expr {
 func (g *g2l) valueFor(lhs ast.Expr, e ast.Expr) string {
 	v := g.expr(e)
 	if g.isOpt(lhs) && !isNil(e) && !g.isOpt(e) {
-		if _, isCall := e.(*ast.CallExpr); !isCall { // calls producing nil-able values are already Options
+		if _, isCall := e.(*ast.CallExpr); !isCall || !g2lOptionCall(e) { // calls producing nil-able values are already Options (error constructors are not)
 			return "(some " + v + ")"
 		}
 	}
@@ -780,6 +799,14 @@ func (g *g2l) stmt(o *g2lOut, ind int, s ast.Stmt) {
 			var rhs string
 			if ie, ok := x.Rhs[0].(*ast.IndexExpr); ok && len(x.Lhs) == 2 {
 				rhs = "(GoLite.Map.lookup " + g.expr(ie.X) + " " + g.expr(ie.Index) + ")"
+			} else if ta, ok := x.Rhs[0].(*ast.TypeAssertExpr); ok && len(x.Lhs) == 2 && ta.Type != nil {
+				// v, ok := x.(T), the CHECKED assertion: a function of the target (callSubst "assert:<Lean type>")
+				// returning (value, ok); the one-value form panics in Go and stays outside the subset
+				f, ok := g.t.callSubst["assert:"+g2lType(g, ta.Type)]
+				if !ok {
+					g.fail(s, "type assertion to %s without a callSubst \"assert:%s\"", exprText(ta.Type), g2lType(g, ta.Type))
+				}
+				rhs = "(" + f + " " + g.expr(ta.X) + ")"
 			} else {
 				rhs = g.expr(x.Rhs[0])
 			}
@@ -876,6 +903,19 @@ func (g *g2l) stmt(o *g2lOut, ind int, s ast.Stmt) {
 				return
 			}
 		}
+		if len(x.Results) == 0 && len(g.named) == len(g.t.retOpt) && len(g.named) > 0 && len(g.t.captures) == 0 {
+			// bare return of named results
+			var vs []string
+			for _, n := range g.named {
+				vs = append(vs, g2lIdent(n))
+			}
+			if len(vs) == 1 {
+				o.line(ind, "return "+vs[0])
+			} else {
+				o.line(ind, "return ("+strings.Join(vs, ", ")+")")
+			}
+			return
+		}
 		if len(x.Results) != len(g.t.retOpt) {
 			g.fail(s, "return with %d values, %d expected", len(x.Results), len(g.t.retOpt))
 		}
@@ -915,6 +955,19 @@ func (g *g2l) stmt(o *g2lOut, ind int, s ast.Stmt) {
 	case *ast.BlockStmt:
 		g.block(o, ind, x.List)
 	case *ast.ExprStmt:
+		if c, ok := x.X.(*ast.CallExpr); ok && callName(c) == "delete" && len(c.Args) == 2 {
+			// delete(m, k) on a map this function owns
+			id, isId := c.Args[0].(*ast.Ident)
+			if !isId {
+				g.fail(s, "delete on %s", exprText(c.Args[0]))
+			}
+			if !g.owned[id.Name] {
+				g.fail(s, "delete through %s, which was not created in this function (it may alias memory other code sees)", id.Name)
+			}
+			r := g2lIdent(id.Name)
+			o.line(ind, fmt.Sprintf("%s := GoLite.Map.erase %s %s", r, r, g.expr(c.Args[1])))
+			return
+		}
 		if c, ok := x.X.(*ast.CallExpr); ok {
 			// x.Add(v) on a set-like value: handled through callSubst "recv.Method!" entries
 			f, ok := g.t.callSubst[callName(c)+"!"]
@@ -1224,7 +1277,7 @@ func g2lTranslate(t *g2lTarget) string {
 	if t.closureOf != "" {
 		var lit *ast.FuncLit
 		ast.Inspect(fd.Body, func(n ast.Node) bool {
-			if c, ok := n.(*ast.CallExpr); ok && callName(c) == t.closureOf {
+			if c, ok := n.(*ast.CallExpr); ok && g2lCallMatches(c, t.closureOf) {
 				for _, a := range c.Args {
 					if fl, ok := a.(*ast.FuncLit); ok {
 						lit = fl
@@ -1244,7 +1297,7 @@ func g2lTranslate(t *g2lTarget) string {
 		for i, st := range fd.Body.List {
 			found := false
 			ast.Inspect(st, func(n ast.Node) bool {
-				if c, ok := n.(*ast.CallExpr); ok && callName(c) == t.after {
+				if c, ok := n.(*ast.CallExpr); ok && g2lCallMatches(c, t.after) {
 					found = true
 				}
 				return true
@@ -1259,6 +1312,9 @@ func g2lTranslate(t *g2lTarget) string {
 		body = fd.Body.List[at+1:]
 		what = t.fn + " (statements after the call of " + t.after + ")"
 	}
+	if len(t.outer) > 0 {
+		g2lRenameOuter(t, fd, body)
+	}
 	for _, c := range t.captures {
 		g.owned[c] = true
 		g.declared[c] = true
@@ -1269,8 +1325,12 @@ func g2lTranslate(t *g2lTarget) string {
 			if len(r.Names) == 0 {
 				nres++
 			} else {
+				// named results: mutable locals starting at the zero value; a bare `return` hands them back
+				for _, n := range r.Names {
+					g.named = append(g.named, n.Name)
+					g.namedTypes = append(g.namedTypes, r.Type)
+				}
 				nres += len(r.Names)
-				g.fail(r, "named results")
 			}
 		}
 	}
@@ -1284,6 +1344,20 @@ func g2lTranslate(t *g2lTarget) string {
 	o.line(0, fmt.Sprintf("def %s %s : %s := Id.run do", t.leanName, t.params, t.ret))
 	for _, c := range t.captures {
 		o.line(1, "let mut "+g2lIdent(c)+" := "+g2lIdent(c))
+	}
+	for i, n := range g.named {
+		g.declared[n] = true
+		g.owned[n] = true
+		ty := g2lType(g, g.namedTypes[i])
+		if i < len(t.retOpt) && t.retOpt[i] {
+			g.opt[n] = true
+			if !strings.HasPrefix(ty, "(Option") {
+				ty = "(Option " + ty + ")"
+			}
+			o.line(1, "let mut "+g2lIdent(n)+" : "+ty+" := none")
+		} else {
+			o.line(1, "let mut "+g2lIdent(n)+" : "+ty+" := default")
+		}
 	}
 	g.block(&o, 1, body)
 	// a body that can fall off its end (no results) needs nothing; one with results always ends in return
@@ -1358,4 +1432,132 @@ func g2lParamList(f *ast.File, t *g2lTarget) *ast.FieldList {
 		return nil
 	}
 	return fd.Type.Params
+}
+
+// g2lCallMatches: callee pattern "recv.Method", or "*.Method" for whatever the receiver is called
+func g2lCallMatches(c *ast.CallExpr, pat string) bool {
+	if strings.HasPrefix(pat, "*.") {
+		sel, ok := c.Fun.(*ast.SelectorExpr)
+		return ok && sel.Sel.Name == pat[2:]
+	}
+	return callName(c) == pat
+}
+
+// g2lRenameOuter renames, inside the part, the variables of the enclosing function (found by their
+// declaration position) to the names the target's configuration uses (t.outer).
+func g2lRenameOuter(t *g2lTarget, fd *ast.FuncDecl, part []ast.Stmt) {
+	if len(part) == 0 {
+		return
+	}
+	partPos, partEnd := part[0].Pos(), part[len(part)-1].End()
+	inPart := func(n ast.Node) bool { return n.Pos() >= partPos && n.End() <= partEnd }
+	// declaration order of the enclosing function's variables: parameters, then locals declared outside the part
+	var decl []string
+	seen := map[string]bool{}
+	add := func(id *ast.Ident) {
+		if id.Name != "_" && !seen[id.Name] {
+			seen[id.Name] = true
+			decl = append(decl, id.Name)
+		}
+	}
+	for _, f := range fd.Type.Params.List {
+		for _, n := range f.Names {
+			add(n)
+		}
+	}
+	// only TOP-LEVEL declarations of the enclosing body: nested ones are scoped to their blocks
+	for _, st := range fd.Body.List {
+		if inPart(st) {
+			continue
+		}
+		switch x := st.(type) {
+		case *ast.AssignStmt:
+			if x.Tok == token.DEFINE {
+				for _, l := range x.Lhs {
+					if id, ok := l.(*ast.Ident); ok {
+						add(id)
+					}
+				}
+			}
+		case *ast.DeclStmt:
+			if gd, ok := x.Decl.(*ast.GenDecl); ok {
+				for _, sp := range gd.Specs {
+					if vs, ok := sp.(*ast.ValueSpec); ok {
+						for _, id := range vs.Names {
+							add(id)
+						}
+					}
+				}
+			}
+		}
+	}
+	// identifiers of the part that are not field / method / key names and not declared inside it
+	skip := map[*ast.Ident]bool{}
+	declaredInside := map[string]bool{}
+	for _, st := range part {
+		ast.Inspect(st, func(n ast.Node) bool {
+			switch x := n.(type) {
+			case *ast.SelectorExpr:
+				skip[x.Sel] = true
+			case *ast.KeyValueExpr:
+				if id, ok := x.Key.(*ast.Ident); ok {
+					skip[id] = true
+				}
+			case *ast.AssignStmt:
+				if x.Tok == token.DEFINE {
+					for _, l := range x.Lhs {
+						if id, ok := l.(*ast.Ident); ok {
+							declaredInside[id.Name] = true
+						}
+					}
+				}
+			case *ast.ValueSpec:
+				for _, id := range x.Names {
+					declaredInside[id.Name] = true
+				}
+			case *ast.RangeStmt:
+				for _, e := range []ast.Expr{x.Key, x.Value} {
+					if id, ok := e.(*ast.Ident); ok && x.Tok == token.DEFINE {
+						declaredInside[id.Name] = true
+					}
+				}
+			case *ast.FuncLit:
+				for _, f := range x.Type.Params.List {
+					for _, n := range f.Names {
+						declaredInside[n.Name] = true
+					}
+				}
+			}
+			return true
+		})
+	}
+	// closure parameters are declared inside
+	used := map[string]bool{}
+	var idents []*ast.Ident
+	for _, st := range part {
+		ast.Inspect(st, func(n ast.Node) bool {
+			if id, ok := n.(*ast.Ident); ok && !skip[id] && seen[id.Name] && !declaredInside[id.Name] {
+				used[id.Name] = true
+				idents = append(idents, id)
+			}
+			return true
+		})
+	}
+	var actual []string
+	for _, d := range decl {
+		if used[d] {
+			actual = append(actual, d)
+		}
+	}
+	if len(actual) != len(t.outer) {
+		fail("go2lean %s.%s (%s): the part refers to %d variables of the enclosing function %v, the configuration names %d %v",
+			t.recv, t.fn, t.leanName, len(actual), actual, len(t.outer), t.outer)
+	}
+	ren := map[string]string{}
+	for i, a := range actual {
+		ren[a] = t.outer[i]
+	}
+	for _, id := range idents {
+		id.Name = ren[id.Name]
+	}
 }
